@@ -144,7 +144,7 @@ class BlockParser:
 			if kind == Kinds.Block:
 				end, in_entries = cls._parse_block(text, brackets, delimiter, index_for_kind + 1, depth)
 				entries.append(Entry(index, end, depth, kind, in_entries))
-				index = end + 1
+				index = end
 			elif kind == Kinds.Element:
 				entries.append(Entry(index, index_for_kind, depth, kind, []))
 				index = index_for_kind
@@ -265,7 +265,7 @@ class BlockParser:
 		blocks = []
 		for entry in [root, *root.unders()]:
 			if entry.kind == Kinds.Block:
-				block_begin = text.find(brackets[0], entry.begin)
+				_, _, block_begin = cls._analyze_entry(text, brackets, '', entry.begin)
 				blocks.append(text[block_begin:entry.end])
 
 		return blocks
